@@ -65,9 +65,20 @@ JSON_Object *stream_metadata(struct stream *s)
 /* lower-layer failure: calloc may return NULL */
 unsigned g_lowfail;
 #define LOW_PRE (g_lowfail < 1000000u)
+#include "cpu.h"
 void *calloc(size_t n, size_t sz)
 {
 	if (nondet_bool()) { g_lowfail++; return NULL; }
+	if (n == 1 && sz == sizeof(struct cpu)) {
+		/* a CPU object: it keeps its struct type and its contents are ARBITRARY
+		 * rather than zero (an over-approximation of calloc: writing 45 KB of
+		 * zeros field by field is what makes the bounded groups intractable;
+		 * measured 42 s -> 4 s for two CPUs).  The caller initializes it with
+		 * cpu_init_begin, whose contract is proved in group cpu_init_begin. */
+		struct cpu *c = malloc(sizeof(struct cpu));
+		if (c == NULL) { g_lowfail++; return NULL; }
+		return c;
+	}
 	size_t tot = n * sz;
 	if (n != 0 && tot / n != sz) { g_lowfail++; return NULL; }
 	char *p = malloc(tot);
@@ -80,7 +91,7 @@ void *calloc(size_t n, size_t sz)
  * Unbounded groups: the table is abstract (head set when empty), look-ups are
  * replaced by assumed one-cell map contracts.
  * Bounded groups (-DC15_CHAIN): the table is an association chain through
- * hh.next in insertion order (uthash's "app order"), hh.hashv carries the key;
+ * hh.next in insertion order (uthash's "app order"), hh.key points to the key field;
  * HASH_FIND_INT is a search of that chain. */
 unsigned g_hadd_n;
 void *g_hadd_head, *g_hadd_item;
@@ -92,14 +103,14 @@ int g_hadd_key;
 #ifdef C15_CHAIN
 #define HASH_ADD_INT(head, field, add) { g_hadd_n++; g_hadd_head = (void *) &(head); \
 	g_hadd_item = (void *) (add); g_hadd_key = (add)->field; \
-	(add)->hh.hashv = (unsigned) (add)->field; (add)->hh.next = NULL; \
+	(add)->hh.key = (void *) &(add)->field; (add)->hh.next = NULL; \
 	if ((head) == NULL) { (head) = (add); } \
 	else { __typeof__(head) c15_t = (head); \
 		while (c15_t->hh.next != NULL) c15_t = c15_t->hh.next; \
 		c15_t->hh.next = (add); } }
 #define HASH_FIND_INT(head, findint, out) { (out) = NULL; \
 	for (__typeof__(head) c15_f = (head); c15_f != NULL; c15_f = c15_f->hh.next) \
-		if (c15_f->hh.hashv == (unsigned) *(findint)) { (out) = c15_f; break; } }
+		if (*(const int *) c15_f->hh.key == *(findint)) { (out) = c15_f; break; } }
 #else
 #define HASH_ADD_INT(head, field, add) { g_hadd_n++; g_hadd_head = (void *) &(head); \
 	g_hadd_item = (void *) (add); g_hadd_key = (add)->field; if ((head) == NULL) (head) = (add); }
@@ -114,6 +125,25 @@ int g_hadd_key;
 #define RV __CPROVER_return_value
 #define OLD(e) __CPROVER_old(e)
 
+/* ---------------- cpu_init_begin (cpu.c): exact, self-contained ----------------
+ * proved against the real body in group cpu_init_begin; replaces the call inside
+ * load_cpus in the bounded groups (the memset of the 45 KB object is then paid once) */
+void cr_cpu_init_begin(struct cpu *cpu, int index, int phyid, int is_virtual)
+__CPROVER_requires(__CPROVER_is_fresh(cpu, sizeof(*cpu)))
+__CPROVER_assigns(__CPROVER_object_whole(cpu))
+__CPROVER_ensures(cpu->index == index && cpu->phyid == phyid && cpu->is_virtual == is_virtual && cpu->gindex == -1)
+__CPROVER_ensures(cpu->is_init == 0 && cpu->loom == NULL && cpu->nthreads == 0 && cpu->threads == NULL &&
+	cpu->hh.next == NULL && cpu->hh.prev == NULL && cpu->hh.tbl == NULL && cpu->next == NULL && cpu->prev == NULL)
+;
+void h_cpu_init_begin(void)
+{
+	struct cpu *cpu;
+	int index, phyid, is_virtual;
+	cpu_init_begin(cpu, index, phyid, is_virtual);
+	if (is_virtual) REACH("virtual CPU initialized");
+	if (!is_virtual && index > phyid) REACH("physical CPU initialized");
+}
+
 /* ======================================================================
  * chains (bounded groups).  NEXT(n) is the hh.next successor.
  * ====================================================================== */
@@ -126,7 +156,6 @@ int g_hadd_key;
 /* number of nodes, for chains of at most 5 */
 #define CLEN5(l) (C0(l) == NULL ? 0 : C1(l) == NULL ? 1 : C2(l) == NULL ? 2 : C3(l) == NULL ? 3 : C4(l) == NULL ? 4 : 5)
 /* a CPU node as loom_add_cpu leaves it */
-#define CPU_NODE_WF(c) ((c)->hh.hashv == (unsigned) (c)->phyid && (c)->phyid >= 0)
 
 /* ---------------- load_cpus (bounded) ----------------
  * pre-state loom: not initialized (cpus_array == NULL), at most two CPUs L0, L1
@@ -156,18 +185,8 @@ unsigned long g_old_ncpus;
 
 /* post-state: some node of the chain (<= 5 nodes) is exactly the pair (idx, phy) */
 #define NODE_IS(c, idx, phy) ((c)->index == (idx) && (c)->phyid == (phy) && !(c)->is_virtual)
-#define IN_CHAIN(l, idx, phy) (C0(l) != NULL && (NODE_IS(C0(l), idx, phy) || \
-	(C1(l) != NULL && (NODE_IS(C1(l), idx, phy) || \
-	(C2(l) != NULL && (NODE_IS(C2(l), idx, phy) || \
-	(C3(l) != NULL && (NODE_IS(C3(l), idx, phy) || \
-	(C4(l) != NULL && NODE_IS(C4(l), idx, phy))))))))))
 /* post-state: nodes a and b of the chain are compatible (partial bijection) */
 #define NCOMPAT(a, b) ((a) == NULL || (b) == NULL || COMPAT((a)->index, (a)->phyid, (b)->index, (b)->phyid))
-#define CHAIN_BIJ(l) (C0(l) == NULL || (NCOMPAT(C0(l), C1(l)) && (C1(l) == NULL || ( \
-	NCOMPAT(C0(l), C2(l)) && NCOMPAT(C1(l), C2(l)) && (C2(l) == NULL || ( \
-	NCOMPAT(C0(l), C3(l)) && NCOMPAT(C1(l), C3(l)) && NCOMPAT(C2(l), C3(l)) && (C3(l) == NULL || ( \
-	NCOMPAT(C0(l), C4(l)) && NCOMPAT(C1(l), C4(l)) && NCOMPAT(C2(l), C4(l)) && NCOMPAT(C3(l), C4(l)) && \
-	(C4(l) == NULL || C4(l)->hh.next == NULL)))))))))
 
 /* load_cpus is checked WITHOUT contract instrumentation (DFCC over a chain of
  * 45 KB CPU objects plus three callocs does not finish in 15 min): the harness
@@ -192,7 +211,7 @@ static struct loom *c15_build_loom2(void)
 	if (w_ln >= 1) {
 		g_l0 = malloc(sizeof(struct cpu));
 		__CPROVER_assume(g_l0 != NULL && g_l0->phyid >= 0 && g_l0->index >= 0);
-		g_l0->hh.hashv = (unsigned) g_l0->phyid; g_l0->hh.next = NULL; g_l0->is_virtual = 0;
+		g_l0->hh.key = (void *) &g_l0->phyid; g_l0->hh.next = NULL; g_l0->is_virtual = 0;
 		w_lidx[0] = g_l0->index; w_lphy[0] = g_l0->phyid;
 	}
 	if (w_ln == 2) {
@@ -200,7 +219,7 @@ static struct loom *c15_build_loom2(void)
 		__CPROVER_assume(g_l1 != NULL && g_l1->phyid >= 0 && g_l1->index >= 0);
 		/* the loom's CPUs are a partial bijection (invariant re-established below) */
 		__CPROVER_assume(g_l1->phyid != g_l0->phyid && g_l1->index != g_l0->index);
-		g_l1->hh.hashv = (unsigned) g_l1->phyid; g_l1->hh.next = NULL; g_l1->is_virtual = 0;
+		g_l1->hh.key = (void *) &g_l1->phyid; g_l1->hh.next = NULL; g_l1->is_virtual = 0;
 		g_l0->hh.next = g_l1;
 		w_lidx[1] = g_l1->index; w_lphy[1] = g_l1->phyid;
 	}
@@ -222,21 +241,34 @@ static struct loom *c15_build_loom2(void)
 }
 
 /* postconditions of load_cpus / loom_load_metadata (a macro: REACH assertions must sit in the h_ function) */
+/* the chain after the call, read once into locals (nested hh.next dereferences
+ * in every clause make symbolic execution explode) */
+#define N_IS(n, idx, phy) ((n) != NULL && NODE_IS(n, idx, phy))
+#define IN_NODES(idx, phy) (N_IS(n0, idx, phy) || N_IS(n1, idx, phy) || N_IS(n2, idx, phy) || N_IS(n3, idx, phy) || N_IS(n4, idx, phy))
+#define NODES_LEN (n0 == NULL ? 0 : n1 == NULL ? 1 : n2 == NULL ? 2 : n3 == NULL ? 3 : n4 == NULL ? 4 : 5)
+#define NODES_BIJ (NCOMPAT(n0, n1) && NCOMPAT(n0, n2) && NCOMPAT(n0, n3) && NCOMPAT(n0, n4) && NCOMPAT(n1, n2) && \
+	NCOMPAT(n1, n3) && NCOMPAT(n1, n4) && NCOMPAT(n2, n3) && NCOMPAT(n2, n4) && NCOMPAT(n3, n4))
 #define C15_CHECK_LOAD_CPUS(loom, r, old_err, old_low, old_hadd, old_nprocs, old_procs) { \
+	struct cpu *n0 = (loom)->cpus; \
+	struct cpu *n1 = n0 != NULL ? CNEXT(n0) : NULL; \
+	struct cpu *n2 = n1 != NULL ? CNEXT(n1) : NULL; \
+	struct cpu *n3 = n2 != NULL ? CNEXT(n2) : NULL; \
+	struct cpu *n4 = n3 != NULL ? CNEXT(n3) : NULL; \
+	VASSERT(n4 == NULL || n4->hh.next == NULL, "at most five CPUs after the call"); \
 	VASSERT((r == 0) == (!w_has || (UNION_LEGAL && g_lowfail == old_low)), "load_cpus accepted exactly when the union of loom and stream CPUs is a valid partial bijection"); \
 	VASSERT(r == 0 || r == -1, "load_cpus returns 0 or -1"); \
 	VASSERT(r == 0 || g_err > old_err, "load_cpus refusal comes with a diagnostic"); \
-	VASSERT(w_has || (loom->cpus == g_l0 && loom->ncpus == g_old_ncpus && g_hadd_n == old_hadd), "a stream without CPU list changes nothing"); \
+	VASSERT(w_has || (n0 == g_l0 && loom->ncpus == g_old_ncpus && g_hadd_n == old_hadd), "a stream without CPU list changes nothing"); \
 	if (r == 0 && w_has) { \
-		VASSERT(!M_PRESENT(0) || IN_CHAIN(loom, w_idx[0], w_phy[0]), "accepted: pair 0 is in the loom with exactly that pairing"); \
-		VASSERT(!M_PRESENT(1) || IN_CHAIN(loom, w_idx[1], w_phy[1]), "accepted: pair 1 is in the loom with exactly that pairing"); \
-		VASSERT(!M_PRESENT(2) || IN_CHAIN(loom, w_idx[2], w_phy[2]), "accepted: pair 2 is in the loom with exactly that pairing"); \
-		VASSERT((w_ln < 1 || C0(loom) == g_l0) && (w_ln < 2 || C1(loom) == g_l1), "accepted: CPUs the loom had stay first, in order"); \
-		VASSERT(loom->ncpus == g_old_ncpus + (unsigned long) N_NEW && loom->ncpus == (size_t) CLEN5(loom) && \
+		VASSERT(!M_PRESENT(0) || IN_NODES(w_idx[0], w_phy[0]), "accepted: pair 0 is in the loom with exactly that pairing"); \
+		VASSERT(!M_PRESENT(1) || IN_NODES(w_idx[1], w_phy[1]), "accepted: pair 1 is in the loom with exactly that pairing"); \
+		VASSERT(!M_PRESENT(2) || IN_NODES(w_idx[2], w_phy[2]), "accepted: pair 2 is in the loom with exactly that pairing"); \
+		VASSERT((w_ln < 1 || n0 == g_l0) && (w_ln < 2 || n1 == g_l1), "accepted: CPUs the loom had stay first, in order"); \
+		VASSERT(loom->ncpus == g_old_ncpus + (unsigned long) N_NEW && loom->ncpus == (size_t) NODES_LEN && \
 			g_hadd_n == old_hadd + (unsigned) N_NEW, "accepted: exactly the new physical ids were added (duplicates ignored)"); \
 	} \
 	if (r == 0) { \
-		VASSERT(CHAIN_BIJ(loom), "accepted: the loom's CPUs are again a partial bijection index <-> phyid"); \
+		VASSERT(NODES_BIJ, "accepted: the loom's CPUs are again a partial bijection index <-> phyid"); \
 	} \
 	VASSERT(w_ln < 1 || (g_l0->index == w_lidx[0] && g_l0->phyid == w_lphy[0] && !g_l0->is_virtual), "old CPU 0 unchanged"); \
 	VASSERT(w_ln < 2 || (g_l1->index == w_lidx[1] && g_l1->phyid == w_lphy[1] && !g_l1->is_virtual), "old CPU 1 unchanged"); \
@@ -544,31 +576,3 @@ void h_loom_preorders(void)
 }
 
 
-#ifdef C15_TMP
-void h_tmp1(void)
-{
-	struct cpu *cpu = calloc(1, sizeof(struct cpu));
-	if (cpu == NULL) return;
-	cpu_init_begin(cpu, nondet_int(), nondet_int(), 0);
-	int s = 0;
-	for (int i = 0; i < 10; i++) { if (cpu->index == i) s++; if (cpu->phyid == i) s++; if (cpu->hh.next) s++; }
-	VASSERT(s < 100, "idx");
-	REACH("x");
-}
-void h_tmp2(void)
-{
-	struct loom *loom = malloc(sizeof(struct loom));
-	loom->cpus = NULL; loom->ncpus = 0; loom->is_init = 0;
-	struct cpu *cpu = calloc(1, sizeof(struct cpu));
-	if (cpu == NULL) return;
-	cpu_init_begin(cpu, nondet_int(), nondet_int(), 0);
-	int r = loom_add_cpu(loom, cpu);
-	struct cpu *cpu2 = calloc(1, sizeof(struct cpu));
-	if (cpu2 == NULL) return;
-	cpu_init_begin(cpu2, nondet_int(), nondet_int(), 0);
-	int r2 = loom_add_cpu(loom, cpu2);
-	struct cpu *d = find_cpu_by_index(loom, 7);
-	VASSERT(d == NULL || d->index == 7, "p");
-	REACH("x");
-}
-#endif
